@@ -81,7 +81,12 @@ def build(method):
         w, model, shape = mpslib.make_mps({'fam': 'MA', 'wtype': 'layer', 'w': [2, 8], 'a': [4, 8]}, 0)
         w.train()
         return w, shape
-    sn, model, shape = snlib.make_sn({'n': 2, 'kind': 'conv'}, 0)
+    # two choice blocks whose own options differ (hard / temperature are per-block constructor options): a model-level update of ONE option must
+    # leave the other one as it was in EVERY block
+    sn, model, shape = snlib.make_sn({'n': 2, 'kind': 'conv', 'blocks': 2}, 0)
+    combs = snlib.combiners(sn)
+    combs[1][1].hard_softmax = True
+    combs[1][1].softmax_temperature = 2.0
     sn.train()
     return sn, shape
 
@@ -114,6 +119,9 @@ def classify(method, w):
 def initial_ref(method, w):
     cls = classify(method, w)
     ref = {'flags': {}, 'sampler': 'sm', 'hard': False, 'temperature': 1.0}
+    if method == 'SuperNet':
+        # per block: the options are stored on each combiner
+        ref['per'] = {n: {'hard': bool(c.hard_softmax), 'temperature': float(c.softmax_temperature)} for n, c in snlib.combiners(w)}
     for p in w.parameters():
         ref['flags'][id(p)] = p.requires_grad
     return cls, ref
@@ -140,8 +148,12 @@ def apply_ref(method, cls, ref, op):
                 f[k] = (val == 'True')
     elif op.startswith('temperature='):
         ref['temperature'] = float(op.split('=')[1])
+        for v in ref.get('per', {}).values():
+            v['temperature'] = ref['temperature']
     elif op.startswith('hard='):
         ref['hard'] = op.endswith('True')
+        for v in ref.get('per', {}).values():
+            v['hard'] = ref['hard']
     elif op.startswith('gumbel='):
         if ref['sampler'] != 'none':
             ref['sampler'] = 'gs' if op.endswith('True') else 'sm'
@@ -212,10 +224,11 @@ def check_state(method, w, cls, ref, last_op):
         want_sampler = ref['sampler'] if method == 'MPS' else 'sm'
         if sampler != want_sampler:
             return 'sampler', f'{n}: sampler is {sampler}, expected {want_sampler} after {last_op}'
-        if hard != ref['hard']:
-            return 'hard', f'{n}: hard_softmax={hard}, expected {ref["hard"]} after {last_op}'
-        if abs(temp - ref['temperature']) > 1e-6:
-            return 'temperature', f'{n}: temperature={temp}, expected {ref["temperature"]} after {last_op}'
+        want = ref['per'][n] if 'per' in ref else ref
+        if hard != want['hard']:
+            return 'hard', f'{n}: hard_softmax={hard}, expected {want["hard"]} after {last_op}'
+        if abs(temp - want['temperature']) > 1e-6:
+            return 'temperature', f'{n}: temperature={temp}, expected {want["temperature"]} after {last_op}'
     return None
 
 
